@@ -145,6 +145,16 @@ def _source_lines(source: str):
     return lines
 
 
+def _endpos(tok):
+    """Offset of the end of ``tok``
+
+    Taken from the start and the text of the token: for a token that
+    spans lines some interpreters (CPython 3.12.1) report an end column
+    counted in bytes of another line.
+    """
+    return tok.startpos + len(tok.string)
+
+
 def remove_decorator(source: str):
     """Remove decorators from function definition"""
     lines = _source_lines(source)
@@ -263,7 +273,7 @@ def replace_docstring(source: str, docstr: str, insert_indents=False):
                 first_stmt.value, ast.Str):     # Has docstring
 
             src_front = source[:prev_token.startpos]
-            src_back = source[first_stmt.last_token.endpos:]
+            src_back = source[_endpos(first_stmt.last_token):]
             return src_front + docstr + src_back
 
         else:   # No docstring
@@ -277,7 +287,7 @@ def replace_docstring(source: str, docstr: str, insert_indents=False):
                 first_stmt.value, ast.Str):     # Has docstring
 
             src_front = source[:first_stmt.first_token.startpos]
-            src_back = source[first_stmt.last_token.endpos:]
+            src_back = source[_endpos(first_stmt.last_token):]
 
         else:   # No docstring
             src_front = source[:first_stmt.first_token.startpos]
@@ -308,7 +318,7 @@ def extract_lambda_from_source(source: str):
         if isinstance(node, ast.Lambda):
             break
 
-    return source[node.first_token.startpos:node.last_token.endpos]
+    return source[node.first_token.startpos:_endpos(node.last_token)]
 
 
 def extract_lambda_from_func(func: FunctionType):
@@ -328,7 +338,7 @@ def extract_lambda_from_func(func: FunctionType):
 
     if len(lambdas) == 1:
         node = lambdas[0]
-        return src[node.first_token.startpos:node.last_token.endpos]
+        return src[node.first_token.startpos:_endpos(node.last_token)]
 
     elif len(lambdas) > 0:
         raise ValueError("more than 1 lambda expressions found")
